@@ -2268,7 +2268,19 @@ impl HandlerRunner {
                     Some("short") => Some(r.bytes(10)),
                     _ => None,
                 };
-                let signer_idx = if raw_sig.is_some() { ATTACKER } else { get(1) };
+                // a genuine proof of node IDX that was not made for this verifier: `for:IDX:J` - what IDX signs
+                // when it answers the same challenge data relayed to it by node J (the destination id in the
+                // signed text is J's); `draft:IDX` - the same without any destination id (an early draft of the
+                // protocol).  The relaying party holds no key; the message body is noise.
+                let elsewhere: Option<(u64, Option<u64>)> = match args.get(1).copied() {
+                    Some(s) if s.starts_with("draft:") => Some((s[6..].parse().unwrap_or(0), None)),
+                    Some(s) if s.starts_with("for:") => {
+                        let f: Vec<&str> = s[4..].split(':').collect();
+                        Some((f.first().and_then(|v| v.parse().ok()).unwrap_or(0), Some(f.get(1).and_then(|v| v.parse().ok()).unwrap_or(ATTACKER))))
+                    }
+                    _ => None,
+                };
+                let signer_idx = if raw_sig.is_some() { ATTACKER } else if let Some((si, _)) = elsewhere { si } else { get(1) };
                 let (Some((_, senr)), Some((skey, _)), Some((_, denr))) =
                     (self.key_for_idx(get(0)), self.key_for_idx(signer_idx), self.key_for_idx(get(2))) else { return false };
                 // `w`: the latest WHOAREYOU emitted by DST
@@ -2294,6 +2306,35 @@ impl HandlerRunner {
                 };
                 let body = Request { id: rid_bytes(900_000 + self.wire.len() as u64), body: body_of(get(5).max(1)) }.encode();
                 let nonce: [u8; 12] = r.bytes(12).try_into().unwrap();
+                if let Some((_, for_whom)) = elsewhere {
+                    use discv5::enr::k256::ecdsa::signature::DigestSigner;
+                    use discv5::enr::{EnrKey, EnrPublicKey};
+                    use discv5::enr::k256::sha2::{Digest, Sha256};
+                    let CombinedKey::Secp256k1(sk) = &skey else { return false };
+                    let eph = CombinedKey::generate_secp256k1().public().encode();
+                    let mut m = b"discovery v5 identity proof".to_vec();
+                    m.extend_from_slice(&aad);
+                    m.extend_from_slice(&eph);
+                    if let Some(j) = for_whom {
+                        let Some((_, jenr)) = self.key_for_idx(j) else { return false };
+                        if jenr.node_id() == denr.node_id() {
+                            return false;
+                        }
+                        m.extend_from_slice(&jenr.node_id().raw());
+                    }
+                    let Ok(sig): Result<discv5::enr::k256::ecdsa::Signature, _> = sk.try_sign_digest(Sha256::new().chain_update(&m)) else { return false };
+                    let iv = u128::from_be_bytes(r.bytes(16).try_into().unwrap());
+                    let bytes = hf::reencode(
+                        &denr.node_id(),
+                        iv,
+                        nonce,
+                        PacketKind::Handshake { src_id: senr.node_id(), id_nonce_sig: sig.to_vec(), ephem_pubkey: eph.to_vec(), enr_record: rec },
+                        r.bytes(40),
+                    );
+                    stats.bump("h.craft.handshake-with-a-proof-made-for-somebody-else");
+                    self.wire.push(Datagram { from_idx: ATTACKER, src: node_addr(ATTACKER), dst: node_addr(get(2)), dst_id: denr.node_id(), bytes });
+                    return true;
+                }
                 let crafted = match raw_sig {
                     // an id-signature that is not the output of any signing operation
                     Some(sig) => {
@@ -3176,7 +3217,7 @@ pub fn gen_case(rng: &mut Rng, tier: &str, profile: &str, stats: &mut Stats) -> 
                         ops.push("hdel last 9".into());
                         ops.push(format!("hwru {} next {}", y, match rng.below(3) { 0 => "none", 1 => "stale", _ => "known" }));
                         let rec = match rng.below(4) { 0 => "none".to_string(), 1 => "own".to_string(), 2 => format!("of:{}", x), _ => format!("stale:{}", x) };
-                        let signer = match rng.below(12) { 0 | 1 => x.to_string(), 2 => "empty".into(), 3 => "garbage".into(), 4 => "short".into(), _ => "9".to_string() };
+                        let signer = match rng.below(12) { 0 | 1 => x.to_string(), 2 => "empty".into(), 3 => "garbage".into(), 4 => "short".into(), 5 => format!("draft:{}", x), 6 => format!("for:{}:9", x), _ => "9".to_string() };
                         if rng.chance(1, 8) {
                             // claim the identity that only has an Ed25519 key, presenting its public record
                             ops.pop(); ops.pop(); ops.pop();
